@@ -47,7 +47,7 @@ class Spec:
         self.accepted_ts = set()
         self.lenient = set()  # keys touched by an empty span (outcome left open by the property)
 
-    def add_one(self, u, v, t, e, observed=None):
+    def add_one(self, u, v, t, e, observed=None, bulk=False):
         """returns expected outcome: 'ok' | 'E:VE' | 'E:NXE' | 'any' and applies it if accepted.
         In accumulative mode no property says *when* a call must be rejected, only that a
         rejected call leaves no trace: there the observed outcome decides, provided a rejection
@@ -67,7 +67,10 @@ class Spec:
             self.pres.setdefault(k, set()).update(span)
         else:
             ts = self.addts.get(k)
-            if ts and t < max(ts) and observed == "E:VE":
+            # inside a failed bulk call the failing element is taken to be the first one that starts
+            # before the latest run of the pair's accepted add instants (the documented rule read on
+            # the accumulative timeline); for a single call any earlier-than-latest add may be rejected
+            if ts and observed == "E:VE" and t < (runs(ts)[-1][0] if bulk else max(ts)):
                 return "E:VE"
             self.addts.setdefault(k, set()).add(t)
             self.accepted_ts.add(t)
@@ -91,7 +94,7 @@ class Spec:
         n = 0
         res = "ok"
         for (u, v) in pairs:
-            r = self.add_one(u, v, t, e, observed)
+            r = self.add_one(u, v, t, e, observed, bulk=(k != "add"))
             if r in ("E:VE", "E:NXE"):
                 return r, n
             if r == "any":
